@@ -43,11 +43,13 @@ pub struct GCase {
     /// explore only every k-th allocation ordinal (plus the first and last 24);
     /// 1 = all, 0 = no generic deviations at all
     pub dev_stride: usize,
+    /// explore wire-level (copy-constraint) deviations of the gadget's rows
+    pub rewire: bool,
 }
 
 impl GCase {
     pub fn new(g: Gadget, expect: Expect, class: &str) -> Self {
-        GCase { g, expect, class: class.to_string(), extra: None, named: None, bound2: false, confirm: true, dev_stride: 1 }
+        GCase { g, expect, class: class.to_string(), extra: None, named: None, bound2: false, confirm: true, dev_stride: 1, rewire: false }
     }
 }
 
@@ -63,6 +65,9 @@ pub struct CaseReport {
     pub n_generr: u64,
     pub n_layout_changed: u64,
     pub confirmed: u64,
+    pub n_rewire: u64,
+    pub n_pure_copy_breaks: u64,
+    pub n_rewire_free: u64,
     pub rows: usize,
     pub violations: Vec<(String, String, Value)>,
     pub key: u64,
@@ -189,6 +194,16 @@ pub fn run_case(c: &GCase, cache: &ConfirmCache) -> CaseReport {
         j["outputs"] = json!(outs.iter().map(hex).collect::<Vec<_>>());
         rep.violations.push((sig, format!("{} deviation {}: M1-satisfiable assignment returns {:?}", c.g.name, d.tag, outs.iter().map(hex).collect::<Vec<_>>()), j));
     }
+    // wire-level deviations: one position re-pointed to a fresh witness whose
+    // value keeps every row identity satisfied (only the copy constraint breaks)
+    let rex = if c.rewire { Some(explore_rewirings(&h, crate::rows::init_rows())) } else { None };
+    if let Some(rex) = &rex {
+        rep.n_rewire = rex.n;
+        rep.n_pure_copy_breaks = rex.pure_copy_breaks.len() as u64;
+        // a detached position that still satisfies everything carries a witness
+        // used nowhere else (no copy constraint exists): informational
+        rep.n_rewire_free = rex.satisfiable.len() as u64;
+    }
     // real-prover confirmation of the model's verdicts
     if c.confirm {
         match cache.get(&c.g, rep.layout) {
@@ -203,6 +218,21 @@ pub fn run_case(c: &GCase, cache: &ConfirmCache) -> CaseReport {
                 }
                 for (d, sat) in ex.must_confirm.iter() {
                     todo.push((d.script.clone(), *sat, d.tag.clone()));
+                }
+                // every pure copy break must be rejected by the real prover
+                if let Some(rex) = &rex {
+                    for rw in rex.pure_copy_breaks.iter().take(16) {
+                        let p = rewired_prog(&h, rw);
+                        let real = conf.run_prog(&p);
+                        rep.confirmed += 1;
+                        if real != Real::Unsatisfied {
+                            rep.violations.push((
+                                format!("{}/copy-break-real-{}", c.class, format!("{:?}", real).split('(').next().unwrap()),
+                                format!("{} {}: every row identity holds and only the compiled copy constraint is broken, yet the real prover/verifier gave {:?}", c.g.name, rw.tag, real),
+                                json!({"gadget": c.g.name, "inputs": inputs_json, "rewire": rw.tag, "row": rw.row, "wire": rw.wire, "value": hex(&rw.value), "real": format!("{:?}", real)}),
+                            ));
+                        }
+                    }
                 }
                 for (script, model_sat, tag) in todo {
                     let real = conf.run(&c.g, &script);
@@ -243,6 +273,11 @@ pub fn absorb(run: &mut Run, reports: Vec<Result<CaseReport, String>>, names: &[
                 run.outcome_n("deviations:generator-panic", rep.n_panic);
                 run.outcome_n("deviations:generator-error", rep.n_generr);
                 run.outcome_n("deviations:layout-changed", rep.n_layout_changed);
+                run.outcome_n("rewirings", rep.n_rewire);
+                run.outcome_n("rewirings:pure-copy-breaks", rep.n_pure_copy_breaks);
+                run.outcome_n("rewirings:unconstrained-single-use-witness", rep.n_rewire_free);
+                run.evaluations += rep.n_rewire;
+                run.transitions += rep.n_rewire;
                 if rep.n_devs > 0 || rep.honest_state != "generator-error" {
                     run.nontrivial(rep.key);
                 }
